@@ -224,7 +224,7 @@ func offerOf(price uint64, size int64) uint64 {
 	return uint64(float64(size) / float64(gb) * float64(price))
 }
 
-// st.new_alloc A=client I=[data, parity, sizeKind, blobberStart, extra, valueKind, rangeKind, enterprise]
+// st.new_alloc A=client I=[data, parity, sizeKind, blobberStart, extra, valueKind, rangeKind, enterprise, duplicateKind]
 func (sw *SW) opNewAlloc(st sim.Step) {
 	c := sw.client(int64(st.A))
 	vw := sw.view()
@@ -248,6 +248,24 @@ func (sw *SW) opNewAlloc(st sim.Step) {
 		start := int(abs(st.Int(3, 0)) % int64(len(regs)))
 		for i := 0; i < n && i < len(regs); i++ {
 			ids = append(ids, regs[(start+i)%len(regs)].ID)
+		}
+	}
+	// fault: the same blobber id named twice in the list (it must never get two shares)
+	switch abs(st.Int(8, 0)) % 4 {
+	case 1:
+		if len(ids) >= 2 {
+			ids[1] = ids[0]
+			sw.W.Tr.Fault("alloc_duplicate_blobber_id")
+		}
+	case 2:
+		if len(ids) >= 2 {
+			ids[len(ids)-1] = ids[0]
+			sw.W.Tr.Fault("alloc_duplicate_blobber_id")
+		}
+	case 3:
+		if len(ids) >= 1 {
+			ids = append(ids, ids[0])
+			sw.W.Tr.Fault("alloc_duplicate_blobber_id")
 		}
 	}
 	// size kinds; "fill" kinds are relative to the first listed blobber's free capacity
@@ -359,6 +377,11 @@ func (sw *SW) opUpdateAlloc(st sim.Step) {
 				add = cand.ID
 				break
 			}
+		}
+		if st.Int(7, 0)%4 == 3 && av != nil && len(av.BAs) > 0 {
+			// fault: "add" a blobber that already serves the allocation
+			add = av.BAs[abs(st.Int(4, 0))%int64(len(av.BAs))].BlobberID
+			sw.W.Tr.Fault("alloc_duplicate_blobber_id")
 		}
 		if add == "" && len(regs) > 0 {
 			add = regs[int(st.Int(4, 0))%len(regs)].ID
